@@ -281,11 +281,15 @@ func runC06(c *vx.Ctx) {
 	}
 	c06Sched(c)
 	c06Race(c)
+	c06MapOrder(c)
 }
 
 func replayC06(c *vx.Ctx, v vx.Violation) string {
 	if v.Part == "trim-race" {
 		return replayC06Race(c)
+	}
+	if v.Part == "map-order" {
+		return replayViaVqm(v)
 	}
 	core.VScaleParams(core.VR1)
 	raw, _ := jsonMarshal(v.Replay)
